@@ -158,6 +158,94 @@ def hist_correspondence(ctx, hist):
             bad.append((c, "; ".join(why)))
     return bad, len(live), agree_inplace
 
+
+# ---------------------------------------------------------------- aliased blobs: sub-slices of shared buffers handed to Add
+def alias_val(c):
+    return [3, [[Hex(b) for b in c["bufs"]], [[x["off"], x["old"], x["buf"], x["i"], x["j"], x["k"]] for x in c["calls"]], Hex(c["file"])]]
+
+def alias_domain(c):
+    """the property's domain from its text: ranges inside the file, pairwise disjoint; calls in file order or with distinct offsets"""
+    calls = c["calls"]
+    offs = [x["off"] for x in calls]
+    if not (offs == sorted(offs) or len(set(offs)) == len(offs)):
+        return False
+    order = sorted(range(len(calls)), key=lambda i: calls[i]["off"])    # stable
+    return py_in_domain([calls[i] for i in order], len(c["file"]) // 2)
+
+def alias_expected(c):
+    """reference splice with each range replaced by the content its blob had WHEN Add WAS CALLED (taken from the input buffers)"""
+    calls = c["calls"]
+    order = sorted(range(len(calls)), key=lambda i: calls[i]["off"])
+    at_call = [dict(off=calls[i]["off"], old=calls[i]["old"], blob=c["bufs"][calls[i]["buf"]][2 * calls[i]["i"]:2 * calls[i]["j"]]) for i in order]
+    return py_splice(at_call, bytes.fromhex(c["file"])).hex()
+
+def alias_oracle(ctx, alias):
+    stats = {"run": len(alias), "in_domain": 0, "coalescing": 0, "spare_capacity_into_other_blob": 0}
+    found = {}
+    def report(key, detail, c, found_input):
+        rank = (len(c["calls"]), sum(len(b) for b in c["bufs"]), c["id"])
+        ent = found.setdefault(key, [0, None])
+        ent[0] += 1
+        if ent[1] is None or rank < ent[1][0]:
+            ent[1] = (rank, detail, c, found_input)
+    for c in alias:
+        calls = c["calls"]
+        def show():   # the content shown is what the slice denotes in the caller's buffers as the caller filled them
+            return "; ".join("Add(%d,%d,buf%d[%d:%d:%d]=%s)" % (x["off"], x["old"], x["buf"], x["i"], x["j"], x["k"], c["bufs"][x["buf"]][2 * x["i"]:2 * x["j"]]) for x in calls)
+        if len(c["patches"] or []) < len(calls):
+            stats["coalescing"] += 1
+        for a in range(len(calls)):
+            for b in range(len(calls)):
+                if a != b and calls[a]["buf"] == calls[b]["buf"] and calls[a]["j"] < calls[b]["j"] and calls[b]["i"] < calls[a]["k"] and calls[b]["j"] > calls[a]["j"]:
+                    stats["spare_capacity_into_other_blob"] += 1
+                    break
+            else:
+                continue
+            break
+        wrong = None
+        if alias_domain(c):
+            stats["in_domain"] += 1
+            want = alias_expected(c)
+            for how in ("same", "other"):
+                if c["status_" + how] != 0 or c["out_" + how] != want:
+                    wrong = (how, c["status_" + how], c["out_" + how], want)
+                    break
+            if wrong:
+                report("C12:alias:not-call-time-splice",
+                       "Add calls with blobs that are sub-slices of shared buffers: after Dump/Load/Apply (%s path) the file holds %s (status %d), not the splice %s of the blob contents each Add was given: %s; buffers %s" %
+                       (wrong[0], wrong[2], wrong[1], wrong[3], show(), c["bufs"]), c, True)
+        if c["bufs_after"] != c["bufs"]:
+            report("C12:alias:caller-buffer-modified",
+                   "PatchSet.Add wrote into the caller's buffers: %s became %s after %s" % (c["bufs"], c["bufs_after"], show()), c, wrong is not None)
+    for key in sorted(found):
+        n, (_, detail, c, fi) = found[key]
+        ctx.violation(key, "%s [%d failing cases in this run]" % (detail, n), {"alias_cases": [c]}, fi)
+    stats["oracle_failures"] = dict((k, v[0]) for k, v in found.items())
+    return stats
+
+def alias_correspondence(ctx, alias):
+    res = ctx.run_model([alias_val(c) for c in alias])
+    bad = []
+    for c, r in zip(alias, res):
+        patches, bufs_after, status, out, spec, dom, views_ok = r
+        why = []
+        mp = [[p[0], p[1], p[2]] for p in patches]
+        if mp != [list(h) for h in (c["patches"] or [])]:
+            why.append("patch headers after Add: model %s real %s" % (mp, c["patches"]))
+        elif [str(p[3]) for p in patches] != (c["blobs"] or []):
+            why.append("blob contents after all Adds: model %s real %s" % ([str(p[3]) for p in patches], c["blobs"]))
+        if [str(b) for b in bufs_after] != c["bufs_after"]:
+            why.append("caller's buffers after all Adds: model %s real %s" % ([str(b) for b in bufs_after], c["bufs_after"]))
+        if not views_ok:
+            why.append("harness produced a slice outside its buffer")
+        if status != c["status_other"] or (status == 0 and str(out) != c["out_other"]):
+            why.append("Apply (write-then-rename): model %d %s real %d %s" % (status, out, c["status_other"], c["out_other"]))
+        if bool(dom) != alias_domain(c) or (dom and str(spec) != alias_expected(c)):
+            why.append("the two reference splices / domains disagree")
+        if why:
+            bad.append((c, "; ".join(why)))
+    return bad
+
 def run(ctx, replay=None):
     st = ctx.prepare(["C12_gen"], ["C12"], "C12.Run")
     model_ok = st["model_ok"]
@@ -165,6 +253,7 @@ def run(ctx, replay=None):
         return ctx.finish("proof", ctx.proof_coverage([], ["lib/binpatch"]), [])
     # ---- run the implementation
     hist = []
+    alias = []
     if replay:
         rp = json.load(open(replay))
         cases = rp.get("cases", [])
@@ -172,6 +261,9 @@ def run(ctx, replay=None):
         if rp.get("hist_cases"):     # re-run the recorded histories against the real code
             rc, outh, errh = ctx.drv(["c12hist-replay"], input="\n".join(json.dumps(c) for c in rp["hist_cases"]) + "\n")
             hist = [json.loads(l) for l in outh.splitlines() if l.strip()]
+        if rp.get("alias_cases"):    # re-run the recorded Add sequences over shared buffers against the real code
+            rc, outa, erra = ctx.drv(["c12alias-replay"], input="\n".join(json.dumps(c) for c in rp["alias_cases"]) + "\n")
+            alias = [json.loads(l) for l in outa.splitlines() if l.strip()]
     else:
         rc, out, err = ctx.drv(["c12"])
         if rc != 0:
@@ -185,6 +277,11 @@ def run(ctx, replay=None):
             ctx.violation("C12:driver-crash", "history driver failed: " + errh[-400:], {"stderr": errh[-2000:]}, False)
             outh = ""
         hist = [json.loads(l) for l in outh.splitlines() if l.strip()]
+        rc, outa, erra = ctx.drv(["c12alias"])
+        if rc != 0:
+            ctx.violation("C12:driver-crash", "aliasing driver failed: " + erra[-400:], {"stderr": erra[-2000:]}, False)
+            outa = ""
+        alias = [json.loads(l) for l in outa.splitlines() if l.strip()]
     byid = {c["id"]: c for c in cases}
     # direct (model-free) oracle checks on the implementation
     n_trunc = 0
@@ -198,11 +295,14 @@ def run(ctx, replay=None):
         if not c.get("input_same", True) and c["status"] >= 0:
             ctx.violation("C12:input-modified", "input modified although output path differs", {"cases": [c]})
     hstats = hist_oracle(ctx, hist)
+    astats = alias_oracle(ctx, alias)
+    alias_bad = []
     mism, ndomain, evaluated = [], 0, 0
     hist_bad, hist_eval, hist_inplace = [], 0, 0
     if model_ok:
         try:
             hist_bad, hist_eval, hist_inplace = hist_correspondence(ctx, hist)
+            alias_bad = alias_correspondence(ctx, alias)
             res = ctx.run_model([case_val(c) for c in cases])
             for c, (codes, dom) in zip(cases, res):
                 ndomain += dom
@@ -231,8 +331,15 @@ def run(ctx, replay=None):
         c, why = hist_bad[0]
         ctx.violation("C12:correspondence:history", "model of Apply over file-system histories and the real code disagree on %d cases (first: %s); no case violates the property text" %
                       (len(hist_bad), why[:600]), {"hist_cases": [c], "broken": "correspondence C12.Run.run_history_case"}, False)
+    if alias_bad and not any(v[2] and v[3].startswith("C12:alias") for v in ctx.violations):
+        c, why = alias_bad[0]
+        ctx.violation("C12:correspondence:alias", "heap model of Add over shared buffers and the real code disagree on %d cases (first: %s); no case violates the property text" %
+                      (len(alias_bad), why[:600]), {"alias_cases": [c], "broken": "correspondence C12.Run.run_alias_case"}, False)
     ctx.proof_verdict()
     kinds = {}
+    for c in alias:
+        k = "%s/%s" % (c["kind"], c["shape"])
+        kinds[k] = kinds.get(k, 0) + 1
     for c in hist:
         k = "%s/%s/out=%s" % (c["kind"], c["shape"], c["outpath"] or "(empty)")
         kinds[k] = kinds.get(k, 0) + 1
@@ -242,9 +349,10 @@ def run(ctx, replay=None):
                               "correspondence harness cmd/drv c12 (real binpatch.Add/Dump/Load/Apply on temp files)",
                               "OS file semantics (WriteAt/Truncate on byte lists; Lstat/fstat/SameFile/Nlink/rename/link/unlink over a one-directory inode table, C12/FsModel.v) — compared with the real file system on every history case"], ["lib/binpatch"])
     cov.update({
-           "evaluations": evaluated + len(big) + hist_eval, "distinct_nontrivial": ndomain + hstats["in_domain"],
+           "evaluations": evaluated + len(big) + hist_eval + len(alias), "distinct_nontrivial": ndomain + hstats["in_domain"] + astats["in_domain"],
+           "alias_cases": {**astats, "model_mismatches": len(alias_bad)},
            "history_cases": {"run": len(hist), "model_evaluated": hist_eval, "model_mismatches": len(hist_bad), "model_chose_inplace": hist_inplace, **hstats},
-           "rule": "exhaustive 1-call and 2-call Add sequences on small files x {same,other,hardlink,absent} + random builder-like sequences + >4GiB header arithmetic + file-system histories (every sequence of <= 2 operations out of 25 after the open, 5 preludes, random longer ones) x 6 output paths x 8 patch shapes x {Apply, Dump->ApplyBinPatch}; non-trivial = in the property's domain (disjoint in-bounds ranges, distinct offsets) as decided by C12.Run.in_domain",
+           "rule": "exhaustive 1-call and 2-call Add sequences on small files x {same,other,hardlink,absent} + random builder-like sequences + >4GiB header arithmetic + file-system histories (every sequence of <= 2 operations out of 25 after the open, 5 preludes, random longer ones) x 6 output paths x 8 patch shapes x {Apply, Dump->ApplyBinPatch} + 3-call Add sequences whose blobs are sub-slices (8 views incl. empty, capacity-limited, overlapping) of two shared buffers x 11 adjacency layouts and random longer ones, through Add/Dump/Load/Apply to the same and to another path, judged against the splice of the call-time contents; non-trivial = in the property's domain (disjoint in-bounds ranges, distinct offsets) as decided by C12.Run.in_domain",
            "samples": [dict((k, c[k]) for k in ("kind", "file", "calls", "mode", "status", "out")) for c in cases[100:103]] +
                       [dict((k, c[k]) for k in ("kind", "ops", "shape", "outpath", "via", "status", "after")) for c in hist[5000:5002]],
            "exhaustive": False, "input_distribution": kinds, "truncation_sweeps": n_trunc,
